@@ -914,6 +914,8 @@ def subscript(fr, base, sl, node):
                     if isinstance(k, EnumMember) and I.decide(eq(fr, i, k, node), f"dictkey:{node.lineno}"):
                         return base[k]
                 raise PathRaise("KeyError", "enum key")
+            if ident_key(i):
+                raise PathRaise("KeyError", repr(i))
             raise Abort("abstract dict key")
         try:
             return base[i]
@@ -1510,10 +1512,19 @@ def concretise(fr, key):
     return key
 
 
+def ident_key(k) -> bool:
+    """a dictionary key whose equality is decided by identity / plain value: constants, fresh unique values (uuid4) and tuples of those"""
+    if isinstance(k, tuple):
+        return all(ident_key(x) for x in k)
+    if isinstance(k, AOpq):
+        return bool(getattr(k, "unique", False))
+    return not is_abs(k)
+
+
 def subscript_dict_abs(fr, d, key, n):
     I = fr.I
     ck = concretise(fr, key)
-    if not is_abs(ck):
+    if not is_abs(ck) or ident_key(ck):
         try:
             return d[ck]
         except KeyError:
